@@ -14,7 +14,11 @@ META = {
             "negative int64, empty/non-ASCII/NUL names, every enum constant, "
             "payload None/0/value/referent, labels None/all-false/other, "
             "known and unknown numeric attributes, AuxData at IR and module "
-            "level) built under random construction strategies. Non-trivial "
+            "level) built under random construction strategies; half of the "
+            "cases are then edited after the first save (public attributes, "
+            "and AuxData containers through references the caller kept) and "
+            "saved and loaded again; 15% go through save_protobuf/"
+            "load_protobuf on a path. Non-trivial "
             "= at least one module and >= 4 node kinds; distinct = hash of "
             "the normalised spec.",
     "reach": {"oracle_comparisons": 300, "#boundary_classes": 55,
